@@ -5,7 +5,7 @@ from vlib import Corr, Search, Failure
 
 ID = 'C20'
 LEVEL = 'proof'
-PROPS = ['Props/C20.v']
+PROPS = ['Props/C20.v', 'Findings/C20.v']
 TRUSTED = [
     'hand-written model Model/C20Opt.v of Attribute.__get__/__set__ read/write bits, the first load of a row, '
     'Entity._construct_optimistic_criteria_, Entity._save_updated_ (UPDATE ... WHERE pk AND criteria, rowcount check) and '
@@ -40,6 +40,7 @@ SCHEMA = ('[{| a_decl := None; a_conv := true; a_vol := false |}; {| a_decl := N
           '{| a_decl := Some true; a_conv := false; a_vol := false |}; {| a_decl := None; a_conv := true; a_vol := true |}]')
 LIFE_SCHEMA = ('[{| a_decl := None; a_conv := true; a_vol := false |}; {| a_decl := None; a_conv := true; a_vol := false |}; '
                '{| a_decl := Some false; a_conv := true; a_vol := false |}]')
+MSCH = '[{| a_decl := None; a_conv := true; a_vol := false |}; {| a_decl := None; a_conv := true; a_vol := false |}]'
 PROTECTED = [True, True, False, False, True, False]     # declared: optimistic (own option, else converter default) and not volatile
 A, B, C_, F, G, V = range(6)
 
@@ -187,8 +188,8 @@ def coq_case(c, r):
     impl = '(%s, %s, %s)' % (clist(r['final'], cval), clist(r['status'], cstatus), clist(r['events'], cevent))
     return 'outcome_eqb (%s) %s' % (model, impl)
 
-HEADER = ('Require Import PonyV.Model.C20Opt PonyV.Model.C20Life.\nFrom Coq Require Import ZArith List Bool.\nImport ListNotations.\nOpen Scope nat_scope.\n'
-          'Definition SCH : list attr := %s.\nDefinition LSCH : list attr := %s.\n' % (SCHEMA, LIFE_SCHEMA))
+HEADER = ('Require Import PonyV.Model.C20Opt PonyV.Model.C20Life PonyV.Model.C20Multi.\nFrom Coq Require Import ZArith List Bool.\nImport ListNotations.\nOpen Scope nat_scope.\n'
+          'Definition SCH : list attr := %s.\nDefinition LSCH : list attr := %s.\nDefinition MSCH : list attr := %s.\n' % (SCHEMA, LIFE_SCHEMA, MSCH))
 
 
 def run_bools(ctx, exprs, chunk=450):
@@ -270,6 +271,28 @@ def correspondence(ctx):
         disagreements.append({'what': 'model Life and the real multi-transaction session differ (final row / lock / observations / INSERT-UPDATE statements / error)',
                               'input': c, 'impl': {'final': r['final'], 'locked': r['locked'], 'events': [e[:4] if e[0] == 'upd' else e[:2] if e[0] == 'fail' else e for e in r['events']]},
                               'coq_case': lexprs[i][:1500]})
+    # model Multi: several objects in one session (all-or-nothing, auto-flush)
+    mcases = multi_cases(ctx)
+    dist['multi_cases'] = len(mcases); dist['multi_failed_sessions'] = 0
+    try:
+        mres = run_multi(mcases)
+    except DriverProblem as e:
+        mres = []; disagreements.append({'what': 'multi-object session did not finish (deadlock or driver error)', 'input': e.case, 'impl': str(e.what)[:1500]})
+    mexprs, mmeta = [], []
+    for c, r in zip(mcases, mres):
+        if r['other'] or r['lock_left_held']:
+            disagreements.append({'what': 'unexpected exception or lock left held (multi-object session)', 'input': c, 'impl': [r['other'], r['lock_left_held']]}); continue
+        dist['multi_failed_sessions'] += any(e[0] == 'fail' for e in r['events'])
+        try:
+            mexprs.append(multi_coq_case(c, r)); mmeta.append((c, r))
+        except Unmodelled as e:
+            disagreements.append({'what': 'implementation output outside the model: %s' % e, 'input': c, 'impl': r['events']})
+        if any(e[0] == 'X' for e in c['evs']) and sum(1 for e in r['events'] if e[0] == 'upd') >= 2: nontriv.add(json.dumps(c))
+    for i in (run_bools(ctx, mexprs) if mexprs else [])[:10]:
+        c, r = mmeta[i]
+        disagreements.append({'what': 'model Multi and the real multi-object session differ (final rows / lock / observations / UPDATE statements / error)',
+                              'input': c, 'impl': {'final': r['final'], 'locked': r['locked'], 'events': [e[:5] if e[0] == 'upd' else e[:2] if e[0] == 'fail' else e for e in r['events']]},
+                              'coq_case': mexprs[i][:1500]})
     fu = for_update_check()
     dist['for_update_checks'] = fu['checks']
     disagreements += fu['disagreements']
@@ -277,18 +300,31 @@ def correspondence(ctx):
         samples.append({'db0': c['db0'], 'progs': c['progs'], 'sched': c['sched'], 'status': r['status'], 'final': r['final'],
                         'events': [e[:5] if e[0] != 'end' else e[:3] for e in r['events']]})
     if lres: samples.append({'life_case': lcases[len(lcases) // 2], 'events': lres[len(lcases) // 2]['events']})
-    return Corr(cases=len(exprs) + len(lexprs) + fu['checks'], nontrivial=len(nontriv), disagreements=disagreements, samples=samples, distribution=dist,
+    return Corr(cases=len(exprs) + len(lexprs) + len(mexprs) + fu['checks'], nontrivial=len(nontriv), disagreements=disagreements, samples=samples, distribution=dist,
                 note='every case: one Coq bool = outcome_eqb (model outcome of (row, programs, schedule)) (real outcome), evaluated by vm_compute')
 
 
+_direct = []
+
+def for_update_check_raw(fresh=False):
+    if fresh or not _direct:
+        del _direct[:]
+        _direct.extend(vlib.run_impl('c20_forupdate.py', {}, timeout=120)['tests'])
+    return _direct
+
+
 def for_update_check():
-    """Decision check on the real code: an object obtained with get_for_update is exempt from optimistic criteria."""
-    out = vlib.run_impl('c20_forupdate.py', {}, timeout=120)
+    """Decision checks on the real code: exemptions from optimistic criteria; error class outside a db_session.
+    A test that carries a `finding` key states what the PROPERTY asks for: its mismatch is reported by the search (known finding
+    or violation), not as a broken tie."""
     dis = []
-    for t in out['tests']:
-        if t['got'] != t['want']:
-            dis.append({'what': 'for_update exemption: %s' % t['name'], 'input': t['name'], 'impl': t['got'], 'model': t['want']})
-    return {'checks': len(out['tests']), 'disagreements': dis}
+    tests = for_update_check_raw()
+    for t in tests:
+        if t['got'] != t['want'] and not t.get('finding'):
+            dis.append({'what': 'direct check: %s' % t['name'], 'input': t['name'], 'impl': t['got'], 'model': t['want']})
+        if t.get('finding') and t['got'] != t['want'] and t['got'] != t.get('as_coded'):
+            dis.append({'what': 'direct check (behaviour changed): %s' % t['name'], 'input': t['name'], 'impl': t['got'], 'model': t.get('as_coded')})
+    return {'checks': len(tests), 'disagreements': dis}
 
 
 # ------------------------------------------------------------------------------------------------ model Life: several transactions in one session
@@ -414,6 +450,114 @@ def life_oracle(c, r):
     return bad
 
 
+# ------------------------------------------------------------------------------------------------ model Multi: several objects in one session
+MSCH = '[{| a_decl := None; a_conv := true; a_vol := false |}; {| a_decl := None; a_conv := true; a_vol := false |}]'
+def MR(o, a): return ['R', o, a]
+def MW(o, a, v): return ['W', o, a, ['C', v]]
+def MWP(o, a, b, d): return ['W', o, a, ['P', b, d]]
+def MX(o, a, v): return ['X', o, a, v]
+MULTI_D0 = [[10, 20], [30, 40]]
+MULTI_PROGS = [
+    [MR(0, 0), MR(1, 0), MWP(0, 0, 0, 1), MWP(1, 0, 0, 1), LK],            # both loaded before the writes: no lock until the commit
+    [MR(0, 0), MW(0, 0, 5), MR(1, 0), MW(1, 0, 6), LK],                     # loading object 1 auto-flushes object 0: lock held from there on
+    [MW(0, 1, 1), MW(1, 1, 2), LK, MR(0, 0), MW(0, 0, 3), MW(1, 0, 4), LK],
+    [MR(0, 0), MR(1, 1), MW(1, 0, 7), MW(0, 1, 8), LK],                     # objects_to_save order: object 1 first
+    [MR(1, 0), MW(0, 0, 1), LK],                                            # object 1 only read: not checked (write skew is outside the statement)
+    [MR(0, 0), MR(1, 0), MW(0, 1, 1), LK, MW(1, 1, 2), MW(0, 1, 3), LK],
+]
+MULTI_ACTS = [MX(0, 0, 70), MX(1, 0, 71), MX(1, 1, 72), MX(0, 1, None)]
+
+
+def multi_cases(ctx, deep=False):
+    cases, seen = [], set()
+    for n, prog in enumerate(MULTI_PROGS):
+        for m in (0, 1) + ((2,) if (ctx.thorough or deep or n in (0, 1)) else ()):
+            for seq in itertools.product(range(len(MULTI_ACTS)), repeat=m):
+                for pos in itertools.combinations_with_replacement(range(len(prog) + 1), m):
+                    evs, k = [], 0
+                    for i in range(len(prog) + 1):
+                        while k < m and pos[k] == i:
+                            evs.append(MULTI_ACTS[seq[k]]); k += 1
+                        if i < len(prog): evs.append(prog[i])
+                    c = {'multi': True, 'd0': MULTI_D0, 'evs': evs}
+                    key = json.dumps(c)
+                    if key not in seen:
+                        seen.add(key); cases.append(c)
+    return cases
+
+
+_multi_cache = {}
+
+def run_multi(cases):
+    todo = [c for c in cases if json.dumps(c) not in _multi_cache]
+    if todo:
+        out = vlib.run_impl('c20_multi_driver.py', {'cases': todo}, timeout=1500)
+        for c, r in zip(todo, out['results']):
+            _multi_cache[json.dumps(c)] = r
+        if out.get('error') or out.get('stuck'):
+            k = len(out['results'])
+            raise DriverProblem(out.get('stuck') or out.get('error'), todo[k] if k < len(todo) else None)
+    return [_multi_cache[json.dumps(c)] for c in cases]
+
+
+def cmev(e):
+    if e[0] == 'K': return 'MCommit'
+    if e[0] == 'R': return '(MRead %d %d)' % (e[1], e[2])
+    if e[0] == 'X': return '(MExt %d %d %s)' % (e[1], e[2], cval(e[3]))
+    if e[3][0] == 'C': return '(MWrite %d %d (EConst %s))' % (e[1], e[2], cval(e[3][1]))
+    return '(MWrite %d %d (EPlus %d %s))' % (e[1], e[2], e[3][1], vlib.cz(e[3][2]))
+
+def cmtev(e):
+    if e[0] == 'obs': return '(MObs %d %d %s)' % (e[1], e[2], cval(e[3]))
+    if e[0] == 'upd':
+        if any(v == '=NULL' for _, v in e[3]): raise Unmodelled('UPDATE compares a column with `= NULL`')
+        return '(MUpd %d %s %s %s)' % (e[1], cpairs(e[2]), cpairs(e[3]), vlib.cbool(e[4]))
+    if e[0] == 'fail': return '(MFail %d)' % e[1]
+    raise Unmodelled(str(e))
+
+def multi_coq_case(c, r):
+    evs = clist(r['events'], cmtev) if r['events'] else '(@nil mtev)'
+    return 'moutcomem_eqb (moutcomem 2 %d MSCH %s %s) (%s, %s, %s)' % (
+        len(c['d0']), clist(c['d0'], lambda row: clist(row, cval)), clist(c['evs'], cmev),
+        clist(r['final'], lambda row: clist(row, cval)), vlib.cbool(r['locked']), evs)
+
+
+def multi_oracle(c, r):
+    """all-or-nothing across objects and per-object optimistic protection, from the real events only"""
+    bad = []
+    known, pending = {}, set()          # (object, attribute) -> value read from the database
+    evs, pos = list(r['events']), 0
+    for e in c['evs']:
+        if e[0] == 'X': continue
+        # statements of the (auto-)flush of this step
+        while pos < len(evs) and evs[pos][0] == 'upd':
+            x = evs[pos]; pos += 1
+            if x[4]:
+                before = x[5]
+                stale = sorted((o, a) for (o, a), v in known.items() if o == x[1] and before[o][a] != v)
+                if stale:
+                    bad.append(('multi:lost-update', 'object %d: the session had read %r, the row was %r, and its UPDATE SET %r WHERE %r was applied'
+                                % (x[1], {k: known[k] for k in stale}, before[x[1]], x[2], x[3])))
+                pending -= {(x[1], a) for a, _ in x[2]}
+        if pos < len(evs) and evs[pos][0] == 'fail':
+            x = evs[pos]
+            if x[2] != x[3]:
+                bad.append(('multi:failed-session-partly-visible', 'the step failed (%r) but the committed rows changed %r -> %r: not all-or-nothing' % (x[1], x[2], x[3])))
+            break
+        if e[0] == 'R' or (e[0] == 'W' and e[3][0] == 'P'):
+            src = e[2] if e[0] == 'R' else e[3][1]
+            if pos < len(evs) and evs[pos][0] == 'obs' and evs[pos][1] == e[1] and evs[pos][2] == src:
+                if (e[1], src) not in pending: known[(e[1], src)] = evs[pos][3]
+                pos += 1
+        if pos < len(evs) and evs[pos][0] == 'fail':
+            x = evs[pos]
+            if x[2] != x[3]: bad.append(('multi:failed-session-partly-visible', 'the step failed but the committed rows changed %r -> %r' % (x[2], x[3])))
+            break
+        if e[0] == 'W':
+            known.pop((e[1], e[2]), None); pending.add((e[1], e[2]))
+    return bad
+
+
 # ------------------------------------------------------------------------------------------------ search (property oracle)
 
 def oracle(c, r):
@@ -516,8 +660,23 @@ def search(ctx, deep):
                 seen_keys[key] += 1
     except DriverProblem as e:
         failures.append(Failure('deadlock-or-driver-error', 'multi-transaction session did not finish: %s' % str(e.what)[:500], {'case': e.case}))
+    mcases = multi_cases(ctx, deep)
+    dist['multi_cases'] = len(mcases)
+    try:
+        for c, r in zip(mcases, run_multi(mcases)):
+            for key, what in multi_oracle(c, r):
+                if seen_keys.setdefault(key, 0) < 1:
+                    failures.append(Failure(key, '%s  [rows %r, events %r]' % (what, c['d0'], c['evs']), {'case': c}))
+                seen_keys[key] += 1
+    except DriverProblem as e:
+        failures.append(Failure('deadlock-or-driver-error', 'multi-object session did not finish: %s' % str(e.what)[:500], {'case': e.case}))
+    for t in for_update_check_raw():
+        if t['got'] != t['want'] and t.get('finding'):
+            if seen_keys.setdefault(t['finding'], 0) < 1:
+                failures.append(Failure(t['finding'], '%s: got %r, the property asks for %r' % (t['name'], t['got'], t['want']), {'case': {'direct': t['name']}}))
+            seen_keys[t['finding']] += 1
     dist['failing_cases_by_key'] = seen_keys
-    return Search(evaluations=len(cases) + len(lcases), failures=failures, nontrivial=0 if dist['reused_from_correspondence'] == len(cases) else len(nontriv),
+    return Search(evaluations=len(cases) + len(lcases) + len(mcases), failures=failures, nontrivial=0 if dist['reused_from_correspondence'] == len(cases) else len(nontriv),
                   distribution=dist, exhaustive=True,
                   samples=[{'oracle': 'committed => every protected attribute read still had the value read; failed => row untouched; final row = commits in order'}])
 
@@ -525,6 +684,19 @@ def search(ctx, deep):
 def replay(ctx, data):
     c = data['case']
     if c is None: return None
+    if c.get('direct'):
+        for t in for_update_check_raw(fresh=True):
+            if t['name'] == c['direct'] and t['got'] != t['want'] and t.get('finding'):
+                return Failure(t['finding'], '%s: got %r, the property asks for %r' % (t['name'], t['got'], t['want']), data)
+        return None
+    if c.get('multi'):
+        _multi_cache.pop(json.dumps(c), None)
+        try:
+            r = run_multi([c])[0]
+        except DriverProblem as e:
+            return Failure('deadlock-or-driver-error', str(e.what)[:500], data)
+        bad = multi_oracle(c, r)
+        return Failure(bad[0][0], bad[0][1], data) if bad else None
     if c.get('life'):
         _life_cache.pop(json.dumps(c), None)
         try:
